@@ -1184,6 +1184,10 @@ void DeadRegion(const void* p, std::size_t n, const char* oracle) {
   }
 }
 
+void ClearDeadRegions() {
+  g.ndead = 0;
+}
+
 std::uint64_t AllocCount() {
   return g.alloc_count;
 }
